@@ -30,11 +30,28 @@ CHECKS = {
              "9-point tensor rules the point-count/tensor-structure clauses carry the decision. Sphere rule: antipodally symmetrised as documented (2x21). "
              "Quick tier restricts the largest 3-d tensor rules to axis/diagonal/extreme exponent tuples; thorough uses complete sets.",
         ref="5/C05"),
+    "C07": dict(
+        engine="Solver",
+        technique="explicit TLA+ spec of the solver stack (Solver.tla) model-checked exhaustively by TLC (SolverMC, incl. liveness and 6 seeded "
+                  "model faults that must be rejected); trace validation of real runs recorded by a run-time tracer (SolverTrace.tla); replay of "
+                  "every TLC behaviour into the real Job/Step/newtonrhapson with scripted items; numeric clauses as TLA+ laws (NewtonLaws.tla)",
+        text="TLC exhaustively checks the protocol (return only on success, raise at maxiter/NaN, commit only inside a successful check and only "
+             "the trial state of the returned iterate, start from the previous converged iterate, termination) for all outcome-oracle sequences "
+             "within the bounds; every event of traced real solves and of all replayed model behaviours must be explained by a spec action with "
+             "its logged fields bound, with the invariants re-evaluated after each event (total verdict); bit-exact prescribed values, an "
+             "independently re-assembled residual below tolerance, one-step convergence of linear problems and the partitioned integer solve "
+             "are decided by TLC on logged observables.",
+        note="Bounds: 2 items (1 stateful), <=2 steps x <=2 substeps, maxiter 2, 2 consecutive runs (706k states). Identities are 48-bit digests. "
+             "The tracer wraps felupe's module globals/defaults at run time (no source hooks); numerics of the linear solver are not modelled.",
+        ref="5/C07"),
 }
 
 NOT_YET = {}
 
 ENGINES = [
+    {"name": "Solver", "path": "spec/Solver.tla", "serves_properties": ["C07", "C15", "C20"],
+     "kind_free_text": "TLA+ state machine of Job/Step/newtonrhapson/commit protocol; SolverMC.tla (exhaustive + seeded faults + behaviour export), "
+                       "SolverTrace.tla (trace validation), harness/vh/tracer.py (run-time event tracer), NewtonLaws.tla (numeric clauses)"},
     {"name": "Quadrature", "path": "spec/Quadrature.tla", "serves_properties": ["C05"],
      "kind_free_text": "TLA+ law module (fixed-point moments) + TLC trace validation + reference model QuadratureMC.tla"},
     {"name": "Element", "path": "spec/Element.tla", "serves_properties": ["C04"],
